@@ -95,3 +95,9 @@ CATALOGUE = [
          edits=[(ST, "        translate = tuple(order.index(x) for x in env[:3])\n        if _tetrahedron_translate[translate]:",
                  "        a, b, c = env[0], env[1], env[2]\n        translate = (order.index(a), order.index(b), order.index(c))\n        if _tetrahedron_translate[translate]:")]),
 ]
+CATALOGUE += [
+    dict(id='T20-flush-stereo-drops-less', kind=M, props=['C12'], rule='C12.D5-stereo-cache',
+         edits=[(ST, "        self.__dict__.pop('_chiral_morgan', None)\n", "")]),
+    dict(id='T21-thiele-no-fix_stereo', kind=M, props=['C12'], rule='C12.D5-fix_stereo-reached',
+         edits=[('chython/algorithms/aromatics/thiele.py', "        self.fix_stereo()  # check if any stereo centers vanished.\n        return True", "        return True")]),
+]
